@@ -177,6 +177,104 @@ func c20SearchInLoop(c *Ctx, p *core.Prog) {
 
 var _ = token.ADD
 
+// cursor-search-amortised: a linear search over the rest of the input (input[cursor:]) inside a tokenizer function is
+// paid for only if the cursor then moves at least as far as the search looked: on every path from the search to a
+// return the cursor is advanced by something computed from the search result, or the function fails (tokenizing ends).
+// A path that searched to the end of the input and then returns having consumed only the current token makes the
+// next token search the same text again: quadratic (`‘ab’, ‘ab’, …` with a look-ahead for an ASCII quote).
+func c20CursorSearch(c *Ctx, p *core.Prog, scope string, fired map[string]bool) int {
+	r := c.R
+	n := 0
+	for _, fn := range p.SrcFuncs(scope) {
+		seq := 0
+		for _, b := range fn.Blocks {
+			for idx, ins := range b.Instrs {
+				call, ok := ins.(*ssa.Call)
+				if !ok {
+					continue
+				}
+				hay, ok := isLinearSearch(&call.Call)
+				if !ok {
+					continue
+				}
+				sl, ok := hay.(*ssa.Slice)
+				if !ok || sl.High != nil || sl.Low == nil {
+					continue
+				}
+				if !isFieldLoadNamed(sl.X, "input") {
+					continue
+				}
+				n++
+				seq++
+				key := core.FnName(fn) + sprintf("|search#%d", seq)
+				advances := func(in ssa.Instruction) bool {
+					switch x := in.(type) {
+					case *ssa.Call:
+						if f := x.Call.StaticCallee(); f != nil && (f.Name() == "AdvanceN" || f.Name() == "AdvanceRune") {
+							for _, a := range x.Call.Args {
+								if valueDependsOn(a, call, 0, map[ssa.Value]bool{}) {
+									return true
+								}
+							}
+						}
+					case *ssa.Store:
+						if fa, ok := x.Addr.(*ssa.FieldAddr); ok && core.FieldName(fa.X.Type(), fa.Field) == "Index" {
+							return valueDependsOn(x.Val, call, 0, map[ssa.Value]bool{})
+						}
+					}
+					return false
+				}
+				bad := ""
+				seen := map[*ssa.BasicBlock]bool{}
+				var walk func(blk *ssa.BasicBlock, from int)
+				walk = func(blk *ssa.BasicBlock, from int) {
+					if bad != "" {
+						return
+					}
+					for i := from; i < len(blk.Instrs); i++ {
+						in := blk.Instrs[i]
+						if advances(in) {
+							return
+						}
+						if ret, ok := in.(*ssa.Return); ok {
+							failing := false
+							if k := len(ret.Results); k > 0 {
+								last := retOperand(ret, k-1)
+								if tn, ok := last.Type().(*types.Named); ok && tn.Obj().Pkg() == nil && tn.Obj().Name() == "error" && !core.IsNilConst(last) {
+									failing = true
+								}
+							}
+							if !failing {
+								bad = p.Pos(ret.Pos())
+							}
+							return
+						}
+					}
+					for _, sc := range blk.Succs {
+						if !seen[sc] {
+							seen[sc] = true
+							walk(sc, 0)
+						}
+					}
+				}
+				walk(b, idx+1)
+				if fired != nil {
+					if bad != "" {
+						fired[key] = true
+					}
+					continue
+				}
+				if bad == "" {
+					r.OK("cursor-search-amortised", key, p.Pos(call.Pos()), "every path after the search moves the cursor by an amount computed from its result, or fails")
+				} else {
+					r.Violate("cursor-search-amortised", key, p.Pos(call.Pos()), "this search looks through the rest of the input, but the function can return at "+bad+" without having moved the cursor by anything computed from the result: the next token searches the same text again (quadratic on inputs where the search runs far and finds nothing usable)")
+				}
+			}
+		}
+	}
+	return n
+}
+
 // accumulator-scan: inside a loop that appends to a slice on every iteration, another loop walks the whole
 // slice collected so far (duplicate checks, "seen" lists): k items cost k²/2 steps.
 func c20AccumulatorScan(c *Ctx, p *core.Prog) {
